@@ -331,6 +331,8 @@ def handle (args : List String) : String :=
   | ["objhist", n, fails, ops] => Obj.handleHist .localDict n fails ops
   -- seedrows <ntarget> <idx> <mem>: which target row's dense result every seed row must show (Model/C15Obj.lean)
   | ["seedrows", n, idx, mem] => Seed.handleSeed .values n idx mem
+  -- shiftsrc <n>: which DFT bin every position of the two-sided (complex-input) Fourier spectrum shows
+  | ["shiftsrc", n] => Shift.handleShift n
   | _ => "bad-op"
 
 end Nitime.C15
